@@ -439,7 +439,26 @@ func (bl *ToBoltListener) ExitAndExpr(c *zitiql.AndExprContext) {
 	left := bl.popNode()
 
 	if !bl.HasError() {
-		bl.pushStack(&BooleanLogicExprNode{left: left, right: right, op: AndOp})
+		bl.pushStack(newAndNode(left, right))
+	}
+}
+
+// newAndNode builds left AND right. The parser hands everything that follows an AND to it as its right operand, so for
+// `a and b or c` right is `b or c`. AND binds tighter than OR: unless that OR was written in parentheses, the AND is
+// moved into the OR's left branch, giving (a and b) or c
+func newAndNode(left, right Node) Node {
+	if or, ok := right.(*BooleanLogicExprNode); ok && or.op == OrOp && !or.grouped {
+		return &BooleanLogicExprNode{left: newAndNode(left, or.left), right: or.right, op: OrOp}
+	}
+	return &BooleanLogicExprNode{left: left, right: right, op: AndOp}
+}
+
+func (bl *ToBoltListener) ExitGroup(c *zitiql.GroupContext) {
+	bl.printDebug(c)
+
+	// a parenthesised AND/OR expression is a unit for the operators around it
+	if node, ok := bl.currentStack.peek().(*BooleanLogicExprNode); ok {
+		node.grouped = true
 	}
 }
 
@@ -727,6 +746,16 @@ func (bl *ToBoltListener) ExitNotExpr(c *zitiql.NotExprContext) {
 	bl.printDebug(c)
 	expr := bl.popNode()
 	if !bl.HasError() {
-		bl.pushStack(&UntypedNotExprNode{expr: expr})
+		bl.pushStack(newNotNode(expr))
 	}
+}
+
+// newNotNode builds NOT expr. The parser hands everything that follows a NOT to it as its operand, so for
+// `not (a) and b` expr is `(a) and b`. NOT binds tighter than AND and OR: unless that AND/OR was written in parentheses,
+// the NOT is moved onto its leftmost operand, giving (not (a)) and b
+func newNotNode(expr Node) Node {
+	if logic, ok := expr.(*BooleanLogicExprNode); ok && !logic.grouped {
+		return &BooleanLogicExprNode{left: newNotNode(logic.left), right: logic.right, op: logic.op}
+	}
+	return &UntypedNotExprNode{expr: expr}
 }
